@@ -577,3 +577,39 @@ def resolving_against_another_frequency_is_rejected(K, a, b, which):
     ctx = K.call(D.ResolutionContext, cs, ce)
     sp = K.call(D.Span, None, fixed) if which == "start" else K.call(D.Span, fixed, None)
     K.raises(W.IrisPieError, lambda: K.method(sp, "resolve", ctx), "resolve[mixed]")
+
+
+# ------------------------------------------------------------------------------ the same enumeration through the helper and through distances
+@contract("C09", targets=[P + "periods_from_until", P + "_check_periods"], instances=ALL)
+def periods_from_until_in_either_direction(K, cls):
+    """periods_from_until(a, b, step) is the enumeration a Span with the same end points and step gives: a, a+step, ... up to
+    b - forward or backward."""
+    lo, hi = (-60, 60) if cls is not D.DailyPeriod else (730000, 730200)
+    a = K.int("start", lo, hi)
+    b = K.int("end", lo, hi)
+    step = K.int("step", -4, 4)
+    K.assume(step != 0)
+    tup = K.call(D.periods_from_until, K.obj(cls, serial=a), K.obj(cls, serial=b), step)
+    n = K.length(tup)
+    K.ensure("as many periods as the span with these end points and step", n == spec_len(K, a, b, step))
+    i = K.int("i", 0, 200)
+    K.assume(i < n)
+    e = K.index(tup, i)
+    K.ensure("i-th period is start + i*step", K.And(K.cls_of(e) is cls, K.attr(e, "serial") == a + i * step))
+
+
+@contract("C09", targets=[P + "Span.__sub__", P + "_is_period"], instances=[(c, "span - period") for c in ALL])
+def distances_between_a_span_and_a_period(K, cls, which):
+    """span - p (documented: "the distances in periods from each period within the span to the specified Period") is the
+    range of t - p for the periods t the span enumerates: one per period, in order.  (p - span is not a documented
+    operation: Period.__sub__ rejects it before Span.__rsub__ is consulted.)"""
+    sp, a, b, step = span_of(K, cls)
+    p = K.int("p", -60, 60) if cls is not D.DailyPeriod else K.int("p", 730000, 730200)
+    per_ = K.obj(cls, serial=p)
+    r = K.binop("-", sp, per_) if which == "span - period" else K.binop("-", per_, sp)
+    n = K.length(sp)
+    K.ensure("one distance per period of the span", K.length(r) == n)
+    i = K.int("i", 0, 200)
+    K.assume(i < n)
+    t = a + i * step
+    K.ensure("i-th distance", K.index(r, i) == (t - p if which == "span - period" else p - t))
